@@ -177,6 +177,20 @@ def run_unit(arg):
                         d["replay"] = native.replay(c, inputs)
                     except BaseException as e:  # noqa
                         d["replay"] = {"confirmed": False, "error": repr(e)[:500]}
+                if c is not None and ob.kind == "post" and "/post.ensures_" in ob.name and d.get("solver") != "native-witness":
+                    # the contract carries an explicit, realistic witness for this clause: when it fails natively on the
+                    # real function it is the counter-example that gets reported (solver models of tree domains are
+                    # often not parser-shaped)
+                    clause = ob.name.split("/post.")[-1].split("#")[0]
+                    wfn = c.native("witness_" + clause[len("ensures_"):])
+                    if wfn is not None:
+                        try:
+                            wit = wfn()
+                            rp = native.replay(c, wit)
+                            if rp.get("confirmed") and clause in (rp.get("failed_clauses") or []):
+                                d.update(model_inputs=wit, replay=rp, witness_confirmed=True, witness=wit)
+                        except BaseException as e:  # noqa
+                            d["note"] = (d.get("note") or "") + f" [witness error {e!r}]"[:200]
                 if c is not None and ob.kind.startswith("loop") and not ob.carries_property:
                     # a refuted invariant obligation is a proof artefact (UNDECIDED) -- unless the REAL function, run
                     # natively on that counter-model, satisfies `requires` and violates a post-condition of its
